@@ -8,6 +8,7 @@ func init() {
 			"(H2) the encoder matches the field's type (string -> length-prefixed string, *T -> presence-prefixed encoder, time -> Unix seconds so zone presentation is ignored, slice -> length then every element by a range loop, pointer-to-struct -> presence flag then fields); " +
 			"(H2) also: what is handed to an encoder is computed for the element at hand -- a variable that can keep its value from a previous trip around a loop is not accepted as a source; (SCAN) no loop of the hasher that encodes something per element is left by a break (a `break` for a `continue` after a missing arrival skips the departure); (H3) the primitives are self-delimiting (length before bytes, presence flag on every path, value only on the non-nil edge); " +
 			"(H4) flush discipline (direct hash writes only in flush/string, flush between buffered length and direct write, final flush); (G15) every value reaching binary.Write has a fixed size; (H5) on the way into the hash no numeric value is converted to a type that cannot hold it (float to integer, a narrower integer or float); determinism via no map range / clock in the hasher. " +
+			"The destination binary.Write encodes into takes everything it is handed (a growable standard buffer, or a writer of the module that repeats its copy for the rest of its argument); the hasher never compares time.Time values as structs. " +
 			"Not decided: encoding/binary and the hash function themselves.",
 		Assumptions: []string{"hash.Hash implementations consume Write calls as a byte stream"},
 		Rules: []Rule{
